@@ -19,6 +19,27 @@ CLAIMED = {
             "Same trusted base as C14 (stub builder/loader bound by strace and real runs); fault budget <= 2, kill budget <= 2, later-request sequences <= 2 deep; "
             "environment actors other than requests (a user cleaning the cache) are not modelled.",
             "DESIGN.md §4 C15, §2.5, Appendix A"),
+    "C01": ("oracle-engine", "bounded-exhaustive exploration of a deviation graph of form configurations against a reference model (explicit-state BFS, radius-bounded)",
+            "Every configuration within Hamming radius d (1 quick, 2 thorough) of the dx baseline of each of the 6 cell types over 12 dimensions (geometry class, arity, element, operator, "
+            "factor, wrapping, quadrature, subdomains, scalar type) is compiled through the public JIT entry point and every kernel is compared with an independent reference-space "
+            "evaluator R on 3 geometry instances; R is anchored on closed-form monomial integrals on every run.",
+            "Continuous inputs come from a finite alphabet (geometry instances x one seeded data draw); program space = the grammar of DESIGN §3; R trusts UFL preprocessing, core basix and numpy.",
+            "DESIGN.md §4 C01, §2.2, §3"),
+    "C02": ("oracle-engine", "bounded-exhaustive exploration (deviation graph x every local entity x permutation-code pairs) against a reference model",
+            "Deviation graph around the ds/dS/dP baselines of every cell; per configuration every local entity index (every ordered pair of equal-type facets for dS, prisms' mixed facet types for ds) "
+            "and the permutation-code pairs are enumerated and each kernel call is compared with R, which implements the macro layout of ufcx.h independently.",
+            "As C01; quick tier enumerates the full code product in 1D/2D and a covering set in 3D (stated in the evidence), thorough the full product; the '-' cell geometry is independent of '+'.",
+            "DESIGN.md §4 C02"),
+    "C03": ("numbering-explorer", "exhaustive enumeration of all pairs of local numberings x all physically aligning permutation-code pairs on the real kernels",
+            "For two affine cells sharing a facet ALL pairs of valid local numberings (4/36/64/576/2304) are enumerated; the harness finds geometrically every code pair that aligns the facet "
+            "points and each kernel call must reproduce the identity-numbering value and an independent physical-space quadrature; flag-false kernels must be code-independent on all facet and code pairs.",
+            "Affine cells, Lagrange/DG elements of degree <= 2 (no DOF transformations); polynomial integrands so the rules are exact; permutation convention as written in mc/oracle.py.",
+            "DESIGN.md §4 C03"),
+    "C05": ("oracle-engine", "exhaustive enumeration of coefficient-usage patterns over integrals with NaN-poisoning of disabled coefficients, against a reference model",
+            "All assignments of non-empty coefficient-subset patterns to 1-3 integrals of different type/id (plus derivative/cancellation/constant-usage forms) are compiled; per kernel every "
+            "coefficient flagged disabled is NaN-poisoned, data is packed through original_coefficient_positions and the original constant order, and the result must equal R keyed by the UFL objects.",
+            "A dead read of a disabled coefficient that cannot reach A is not observable; data alphabet as C01.",
+            "DESIGN.md §4 C05"),
 }
 
 NOT_YET = "check not built yet in this session (planned, see DESIGN.md §8); not claimed until its command exists"
@@ -67,6 +88,10 @@ def main():
 
 NA = {}
 ENGINES = [
+    {"name": "oracle-engine", "path": "mc/engine.py", "serves_properties": ["C01", "C02", "C04", "C05", "C09", "C10", "C11"],
+     "kind_free_text": "deviation-graph BFS over form configurations (mc/space.py), real JIT compilation, moated kernel calls, independent reference model R (mc/oracle.py)"},
+    {"name": "numbering-explorer", "path": "mc/checks/C03.py", "serves_properties": ["C03"],
+     "kind_free_text": "exhaustive enumeration of local numbering pairs and aligning permutation codes with an independent physical-space evaluator"},
     {"name": "jit-explorer", "path": "mc/sched.py", "serves_properties": ["C14", "C15"],
      "kind_free_text": "explicit-state / stateless explorer of the real JIT protocol code under a cooperative scheduler with FS interposition, kill and fault injection"},
 ]
